@@ -769,6 +769,7 @@ pub fn main(opts: &Opts) -> ! {
     extra.insert("probes".into(), serde_json::Value::Object(probes));
     extra.insert("distinct_interleavings".into(), json!(res.distinct_interleavings));
     extra.insert("determinism_rechecks".into(), json!(res.determinism_rechecks));
+    extra.insert("stub_conformance".into(), stub_conformance());
     extra.insert("components".into(), json!({
         "real": ["BerTestBuilder::build", "BerTest::{new,run,do_run,make_worker}", "Worker::{work,simulate}", "Encoder", "Puncturer", "Interleaver", "modulators", "AwgnChannel (rand_distr Normal)", "demodulators"],
         "stub": ["std::thread / mpsc / Instant (dstsim)", "rand::rng (seeded ChaCha stream per task)", "num_cpus::get", "decoder (genie DecoderFactory)"],
